@@ -80,6 +80,22 @@ func drawStreams(rt *rapid.T, maxStreams, big int, pollCap int) []streamPlan {
 			drawStreamDeadlines(rt, l+"r", &plans[i].Rev, pollCap)
 		}
 	}
+	// virtual-time layers: in 1 of 3 cases streams stay idle for longer than the timeouts the
+	// library arms by itself (drawn last: the deadline classes may have redrawn the Writes)
+	if pollCap > 0 && rapid.IntRange(0, 2).Draw(rt, "idle-case") == 0 {
+		for i := range plans {
+			l := fmt.Sprintf("s%d", i)
+			switch rapid.IntRange(0, 3).Draw(rt, l+"-idle-dir") {
+			case 0:
+				drawLongPause(rt, l+"f", &plans[i].Fwd)
+			case 1:
+				drawLongPause(rt, l+"r", &plans[i].Rev)
+			case 2:
+				drawLongPause(rt, l+"f", &plans[i].Fwd)
+				drawLongPause(rt, l+"r", &plans[i].Rev)
+			}
+		}
+	}
 	return plans
 }
 
@@ -129,7 +145,7 @@ func runStreams(f failer, env runEnv, layer string, key uint64, plans []streamPl
 	// one direction of one stream, on the side that writes it
 	writerRest := func(s halfStream, idx, dir int, p dirPlan, data []byte, startWrite, off int, closed *atomic.Bool) {
 		who := fmt.Sprintf("%s stream %d dir %d writer", layer, idx, dir)
-		rest := dirPlan{Writes: p.Writes[startWrite:], DL: p.DL}
+		rest := dirPlan{Writes: p.Writes[startWrite:], DL: p.DL.from(startWrite)}
 		wres := runWriter(s, rest, data[off:], sk, who, false)
 		n := wres.n
 		out.ws[idx][dir].add(wres)
@@ -182,7 +198,7 @@ func runStreams(f failer, env runEnv, layer string, key uint64, plans []streamPl
 				who := fmt.Sprintf("%s stream %d dir 0 writer", layer, idx)
 				for wi < len(p.Fwd.Writes) && off == 0 {
 					sz := p.Fwd.Writes[wi]
-					wres := runWriter(s, dirPlan{Writes: []int{sz}, DL: p.Fwd.DL}, data, sk, who, false)
+					wres := runWriter(s, dirPlan{Writes: []int{sz}, DL: p.Fwd.DL.only(wi)}, data, sk, who, false)
 					out.ws[idx][0].add(wres)
 					off = wres.n
 					wi++
